@@ -1466,6 +1466,10 @@ def check_c07(pid, tier, build, props):
         elif r is not None and r != "ok":
             violations.append(dict(ident, finding_class=cls,
                                    witness=dict(r, reason="regenerated function behaves differently", code=o.get("code", "")[:800])))
+    be, bproblems, _vc, vpaths = _backend_run(tier)
+    problems += bproblems
+    violations += vpaths[:max(0, 8 - len(violations))]
+    nth = len(props["theorems"])
     coverage = {
         "evaluations": n,
         "distinct_nontrivial": len(set(json_key(o) for o in allres if o.get("pipeline") == "ok")),
@@ -1477,16 +1481,96 @@ def check_c07(pid, tier, build, props):
         "outcomes": outcomes, "decision_paths_compared": paths,
         "samples": [{"source": o["src"]} for o in allres if "src" in o][:1],
         "component_theorems": props["theorems"],
-        "explanation": "NO theorem decides C07. Exploration: path-exhaustive differential execution against CPython under "
-                       "an external oracle. Coq covers only the middle leg per instance (C01, C05) and the census of the "
-                       "regenerated tree (C10). Known findings carried over from C08 (nested and/or, for target).",
+        "theorems": props["theorems"],
+        "programs": be["same_tree"],
+        "disagreements_checked": len(violations),
+        "obligations": nth + 2,
+        "discharged": (nth if props["ok"] else 0) + (1 if be["holds"] else 0)
+                      + (1 if be["same_tree"] and be["all_paths_ok"] == be["same_tree"] else 0),
+        "code_generator_leg": dict(be, what="per instance (restructured random graphs of AST blocks and generated "
+                                   "programs): the implementation's tree equals the model's (Back.transform) node for "
+                                   "node, and the verified checker back_check accepts it: laid out as a walk "
+                                   "(Model/BackSem.v) the tree passes through the original blocks exactly as the input "
+                                   "graph does under EVERY decision list (C07_back_leg)"),
+        "checker_cmd": "coqc Props/C07.v; build/extract/vchk (BackRun.run_back: tree equality, census, back_check); "
+                       "path-exhaustive differential execution against CPython",
+        "trusted_base": TRUSTED + ["Model/BackSem.v 'layout': the reading of the generated Python as a walk (modelled, "
+                                   "not derived from CPython)", "harness/vh/backend.py (recognition of the tree's node "
+                                   "shapes), progs.py (oracle executor)", "CPython as the reference semantics of the "
+                                   "differential runs"],
+        "explanation": "Front leg, universal (C07_front_leg = C08): for every program of the control skeleton the pruned "
+                       "graph means what the source means. Graph -> regenerated tree (restructuring and code generation "
+                       "together), per instance with a verified checker (C07_back_leg): for every accepted instance ALL "
+                       "decision lists drive the generated tree through the original blocks exactly as they drive the "
+                       "input graph; the tree checked is the model's, which equals the implementation's node for node "
+                       "on every instance of the run (refusals included). Modelled, not proved: the reading of the "
+                       "generated Python as that walk; and/or operands and for-desugaring (known findings K2, K3, "
+                       "K-expr); divergence. Those, and 'refuses or is right, never dies', are decided by running the "
+                       "pipeline and by path-exhaustive differential execution against CPython under an external "
+                       "oracle (exploration part of this check).",
     }
-    return {"coverage": coverage, "violations": violations, "problems": problems, "level": "exploration",
-            "wall_s": t.s(), "broken_name": "path-exhaustive round-trip comparison"}
+    return {"coverage": coverage, "violations": violations, "problems": problems, "level": "translation_validation",
+            "wall_s": t.s(), "broken_name": "Props/C07.v (C07_front_leg, C07_back_leg) / correspondence implementation "
+                                            "= Model/Back.v / back_check on generated trees / path-exhaustive round-trip "
+                                            "comparison"}
 
 
 def json_key(o):
     return o.get("src") or repr(o.get("graph"))
+
+
+_BACKEND = {}
+
+
+def _backend_run(tier):
+    """Implementation vs Model/Back.v on restructured graphs of AST blocks and generated programs:
+    same tree / same refusal, census in Coq, all-paths check of the tree against the input graph.
+    Returns (summary dict, problems, violations_census, violations_paths)."""
+    from . import backend, par
+
+    key = (tier, common.seed(), common.repo_hash())
+    if key in _BACKEND:
+        return _BACKEND[key]
+    problems, vcensus, vpaths = [], [], []
+    bitems = backend.items_for(tier, common.seed())
+    bout, berr = par.run(bitems, backend.export_item)
+    be = {"inputs": len(bitems), "same_tree": 0, "same_refusal": 0, "skipped": {}, "tree_differs": 0,
+          "census_in_coq_ok": 0, "all_paths_ok": 0, "by_kind": {}}
+    if berr:
+        problems.append("code-generator correspondence driver: %r" % berr[:1])
+    for item, meta, r in bout:
+        ident = {"graph": item[1]} if item[0] == "graph" else {"source": item[1]}
+        if meta and "harness_error" in meta:
+            problems.append("code-generator correspondence harness: %r" % (meta,))
+        elif meta and "skipped" in meta:
+            be["skipped"][meta["skipped"]] = be["skipped"].get(meta["skipped"], 0) + 1
+        elif (meta and "model_mismatch" in meta) or r is None or len(r) != 6 or r[0] != 1 or r[1] != 1:
+            be["tree_differs"] += 1
+            if be["tree_differs"] <= 2:
+                problems.append("correspondence implementation = Model/Back.v broken on %r: %s"
+                                % (ident, (meta or {}).get("model_mismatch", "answers %r" % (r,))))
+        else:
+            be["by_kind"][item[0]] = be["by_kind"].get(item[0], 0) + 1
+            if meta.get("status"):
+                be["same_refusal"] += 1
+            else:
+                be["same_tree"] += 1
+                if r[2:5] == [1, 1, 1]:
+                    be["census_in_coq_ok"] += 1
+                elif len(vcensus) < 6:
+                    what = ["statements of original blocks", "control-variable assignments", "tests as if-conditions"]
+                    vcensus.append(dict(ident, witness={"reason": "census of the generated tree (taken in Coq on the "
+                                        "model's tree, which equals the implementation's): " + ", ".join(
+                                            w for w, v in zip(what, r[2:5]) if v != 1)}))
+                if r[5] == 1:
+                    be["all_paths_ok"] += 1
+                elif len(vpaths) < 6:
+                    vpaths.append(dict(ident, witness={"reason": "the generated tree, laid out as a walk, does not follow "
+                                       "the input graph under every decision list (verified checker back_check "
+                                       "rejects)"}))
+    be["holds"] = be["tree_differs"] == 0 and be["same_tree"] > 0 and not berr
+    _BACKEND[key] = (be, problems, vcensus, vpaths)
+    return _BACKEND[key]
 
 
 def check_c10(pid, tier, build, props):
@@ -1523,42 +1607,12 @@ def check_c10(pid, tier, build, props):
             violations.append(dict(ident, witness={"reason": "census mismatch: " + ", ".join(
                 w for w, v in zip(what, c or [0, 0, 0]) if v != 1), "code": o.get("code", "")[:800]}))
     nth = len(props["theorems"])
-    # the model of the code generator (Back.v): same tree node for node (or the same kind of refusal),
-    # and the census of the tree taken inside Coq
-    from . import backend, par
-    bitems = backend.items_for(tier, common.seed())
-    bout, berr = par.run(bitems, backend.export_item)
-    be = {"inputs": len(bitems), "same_tree": 0, "same_refusal": 0, "skipped": {}, "tree_differs": 0,
-          "census_in_coq_ok": 0, "by_kind": {}}
-    if berr:
-        problems.append("code-generator correspondence driver: %r" % berr[:1])
-    for item, meta, r in bout:
-        ident = {"graph": item[1]} if item[0] == "graph" else {"source": item[1]}
-        if meta and "harness_error" in meta:
-            problems.append("code-generator correspondence harness: %r" % (meta,))
-        elif meta and "skipped" in meta:
-            be["skipped"][meta["skipped"]] = be["skipped"].get(meta["skipped"], 0) + 1
-        elif (meta and "model_mismatch" in meta) or r is None or len(r) != 5 or r[0] != 1 or r[1] != 1:
-            be["tree_differs"] += 1
-            if be["tree_differs"] <= 2:
-                problems.append("correspondence implementation = Model/Back.v broken on %r: %s"
-                                % (ident, (meta or {}).get("model_mismatch", "answers %r" % (r,))))
-        else:
-            be["by_kind"][item[0]] = be["by_kind"].get(item[0], 0) + 1
-            if meta.get("status"):
-                be["same_refusal"] += 1
-            else:
-                be["same_tree"] += 1
-                if r[2:] == [1, 1, 1]:
-                    be["census_in_coq_ok"] += 1
-                elif len(violations) < 6:
-                    what = ["statements of original blocks", "control-variable assignments", "tests as if-conditions"]
-                    violations.append(dict(ident, witness={"reason": "census of the generated tree (taken in Coq on the "
-                                           "model's tree, which equals the implementation's): " + ", ".join(
-                                               w for w, v in zip(what, r[2:]) if v != 1)}))
-    be_ok = be["tree_differs"] == 0 and be["same_tree"] > 0 and not berr
+    be, bproblems, vcensus, _vpaths = _backend_run(tier)
+    problems += bproblems
+    violations += vcensus[:max(0, 6 - len(violations))]
+    be_ok = be["holds"]
     coverage = {
-        "code_generator_model": dict(be, holds=be_ok, what="Back.transform(hierarchy) = tree built by "
+        "code_generator_model": dict(be, what="Back.transform(hierarchy) = tree built by "
                                      "SCFG2ASTTransformer, node for node, or the same kind of refusal; census of the "
                                      "tree by Back.census_* against the hierarchy, all inside the extracted Coq code"),
         "programs": n,
